@@ -25,7 +25,7 @@ STR_NONE_VALUES = {""}
 
 def coerce(cls: Type[T], data: Any) -> T:
     if cls is NoneType:
-        if data is None or data in STR_NONE_VALUES:
+        if data is None or (isinstance(data, str) and data in STR_NONE_VALUES):
             return None  # type: ignore
         else:
             raise bad_type(data, cls)
